@@ -409,6 +409,9 @@ func (r *reader) initNodes(tr io.Reader) error {
 							}
 							found = true
 							ent.NumLink = readNumLink(b)
+							if err := resetAttr(b); err != nil {
+								return fmt.Errorf("failed to reset attr of %d(%q): %w", id, ent.Name, err)
+							}
 						}
 					}
 					if !found {
